@@ -455,4 +455,88 @@ theorem pton6_ntop6 (a : Vector UInt8 16) : pton6 (ntop6 a) = some a := by
         simp [hlen]; omega
       rw [e, hrun, vec16_toList]
 
+/-! ### an IPv6 text always has a ':' and `inet_pton4` takes no text with ':' -/
+
+theorem ntop6_has_colon (a : Vector UInt8 16) : (ntop6 a).contains 58 = true := by
+  have hlen : (words6 a).length = 8 := rfl
+  have hspec : runOk ((words6 a).map (· == 0)) = true := bestRun_spec _ _ _ _ _ _ _ _
+  unfold ntop6
+  unfold runOk at hspec
+  cases hb : bestRun ((words6 a).map (· == 0)) with
+  | none =>
+    rw [ntop6With_none _ hlen]
+    simp [words6, sepGroups]
+  | some r =>
+    obtain ⟨b, l⟩ := r
+    rw [hb] at hspec
+    simp only [Bool.and_eq_true, decide_eq_true_eq] at hspec
+    obtain ⟨hmem, _⟩ := hspec
+    by_cases ht : v4Tail (some (b, l)) ((words6 a).getD 5 0) = true
+    · have hb0 : b = 0 ∧ (l = 6 ∨ (l = 5 ∧ (words6 a).getD 5 0 = 0xffff)) := by
+        simpa [v4Tail] using ht
+      obtain ⟨rfl, h6 | ⟨rfl, h5⟩⟩ := hb0
+      · subst h6
+        rw [ntop6With_tail6 _ hlen]; simp
+      · rw [ntop6With_tail5 _ hlen _ h5]; simp
+    · have ht' : v4Tail (some (b, l)) ((words6 a).getD 5 0) = false := by simpa using ht
+      rw [ntop6With_compress _ hlen b l hmem ht']
+      simp
+
+theorem parseOctetGo_colon (f : List UInt8) (h : 58 ∈ f) (saw : Bool) (cur : Nat) : parseOctetGo f saw cur = none := by
+  induction f generalizing saw cur with
+  | nil => simp at h
+  | cons c r ih =>
+    by_cases hc : c = 58
+    · subst hc
+      simp [parseOctetGo]
+    · have hr : 58 ∈ r := by
+        rcases List.mem_cons.1 h with h | h
+        · exact absurd h.symm hc
+        · exact h
+      unfold parseOctetGo
+      split
+      · simp only []
+        split
+        · rfl
+        · split
+          · rfl
+          · exact ih hr _ _
+      · rfl
+
+theorem splitDot_mem (s : List UInt8) (c : UInt8) (hc : c ∈ s) (hd : c ≠ dot) :
+    c ∈ (splitDot s).1 ∨ ∃ f ∈ (splitDot s).2, c ∈ f := by
+  induction s with
+  | nil => simp at hc
+  | cons x r ih =>
+    simp only [splitDot]
+    by_cases hx : x = dot
+    · have : c ∈ r := by
+        rcases List.mem_cons.1 hc with h | h
+        · exact absurd (h.trans hx) hd
+        · exact h
+      rcases ih this with h | ⟨f, hf, hcf⟩
+      · exact Or.inr ⟨_, by simp [hx], h⟩
+      · exact Or.inr ⟨f, by simp [hx, hf], hcf⟩
+    · rcases List.mem_cons.1 hc with h | h
+      · exact Or.inl (by simp [hx, h])
+      · rcases ih h with h' | ⟨f, hf, hcf⟩
+        · exact Or.inl (by simp [hx, h'])
+        · exact Or.inr ⟨f, by simp [hx, hf], hcf⟩
+
+theorem pton4_colon (s : List UInt8) (h : 58 ∈ s) : pton4 s = none := by
+  have hm := splitDot_mem s 58 h (by decide)
+  unfold pton4
+  split
+  · rename_i f0 f1 f2 f3 heq
+    rw [heq] at hm
+    have hp : ∀ f, 58 ∈ f → parseOctet f = none := fun f hf => parseOctetGo_colon f hf _ _
+    rcases hm with h0 | ⟨f, hf, hcf⟩
+    · simp [hp f0 h0]
+    · simp only [List.mem_cons, List.mem_nil_iff, or_false] at hf
+      rcases hf with rfl | rfl | rfl
+      · simp [hp _ hcf]
+      · simp [hp _ hcf]
+      · simp [hp _ hcf]
+  · rfl
+
 end PV.SockAddr
